@@ -89,6 +89,38 @@ Theorem C16_prepare_accepts_iff : forall l w n, Forall wf l ->
 Proof. exact prepare_accepts_iff. Qed.
 Print Assumptions C16_prepare_accepts_iff.
 
+(* the glue in BoundaryConstraints::new: a pair of assertion lists (main segment, auxiliary segment) is accepted exactly when
+   each list is accepted against ITS OWN segment's width (main_trace_width for the main list, aux_segment_width for the
+   auxiliary list): an auxiliary assertion naming a column >= aux width is refused even if the column is < main + aux width *)
+Theorem C16_segment_width_glue : forall main aux mw aw n, Forall wf main -> Forall wf aux ->
+  ((exists res, boundary_prepare main aux mw aw n = inr res) <->
+   (Forall (fun a => a_col a < mw /\ valid a n) main /\
+    ForallOrdPairs (fun b a => ~ (a_col b = a_col a /\ exists s, In s (steps b n) /\ In s (steps a n))) main) /\
+   (Forall (fun a => a_col a < aw /\ valid a n) aux /\
+    ForallOrdPairs (fun b a => ~ (a_col b = a_col a /\ exists s, In s (steps b n) /\ In s (steps a n))) aux)).
+Proof.
+  intros main aux mw aw n Hm Ha.
+  rewrite <- (prepare_accepts_iff main mw n Hm), <- (prepare_accepts_iff aux aw n Ha). unfold boundary_prepare.
+  destruct (prepare_assertions main mw n) as [e|m]; destruct (prepare_assertions aux aw n) as [e'|a]; split.
+  - intros (r & E). discriminate.
+  - intros ((r & E) & _). discriminate.
+  - intros (r & E). discriminate.
+  - intros ((r & E) & _). discriminate.
+  - intros (r & E). discriminate.
+  - intros (_ & (r & E)). discriminate.
+  - intros _. split; eexists; reflexivity.
+  - intros _. eexists. reflexivity.
+Qed.
+Print Assumptions C16_segment_width_glue.
+
+Example C16_segment_width_glue_examples :
+  boundary_prepare [mkA 2 0 0 1] [mkA 1 0 0 1] 3 2 8 = inr ([mkA 2 0 0 1], [mkA 1 0 0 1]) /\
+  boundary_prepare [mkA 0 0 0 1] [mkA 2 0 0 1] 3 2 8 = inl PEWidth /\
+  boundary_prepare [mkA 0 0 0 1] [mkA 4 0 0 1] 3 2 8 = inl PEWidth /\
+  boundary_prepare [mkA 3 0 0 1] [mkA 0 0 0 1] 3 2 8 = inl PEWidth /\
+  boundary_prepare [mkA 0 0 0 1] [mkA 0 0 0 1; mkA 0 0 4 1] 3 2 8 = inl PEOverlap.
+Proof. repeat split. Qed.
+
 (* ================================================================== exemption bounds *)
 
 Theorem C16_exemption_bounds_iff : forall n k ce degs,
